@@ -110,6 +110,8 @@ type Options struct {
 	GenesisTime time.Time
 	// NoInit: build the app but do not InitChain (used for restarts / imports).
 	NoInit bool
+	// SubSecond: block times carry a (height-determined) sub-second part, as real consensus timestamps do.
+	SubSecond bool
 	// InitialHeight of the chain (default 1): lets a short chain cross the byte-width boundaries of height-keyed queues.
 	InitialHeight int64
 	// InflationOff sets mint inflation to 0 so supplies of the bond denom only move by module action.
@@ -694,7 +696,19 @@ func (r *Rig) DeliverBlock(dt time.Duration, txs []Tx) *BlockRecord {
 	if dt <= 0 {
 		dt = time.Second
 	}
-	return r.DeliverBlockAt(r.Time.Add(dt), txs)
+	t := r.Time.Add(dt)
+	if r.Opts.SubSecond {
+		h := uint64(r.Height + 1)
+		if h%5 != 0 { // every fifth block keeps a whole-second time
+			j := time.Duration((h*2654435761)%1000)*time.Millisecond + time.Duration(h%7)*111*time.Microsecond + time.Duration(h%3)
+			if tj := t.Truncate(time.Second).Add(j); tj.After(r.Time) {
+				t = tj
+			}
+		} else if ts := t.Truncate(time.Second); ts.After(r.Time) {
+			t = ts
+		}
+	}
+	return r.DeliverBlockAt(t, txs)
 }
 
 // DeliverBlockAt runs block height+1 at the given block time (used by replicas replaying a journal).
